@@ -386,6 +386,19 @@ func augmentOriginalFile(file *ast.File, overrides map[string]overrideInfo) {
 						d.Specs[j] = nil
 					}
 				case *ast.ValueSpec:
+					if d.Tok == token.CONST && d.Lparen.IsValid() {
+						// In a constant group a value may depend on the position of
+						// its spec (iota) and a spec without values repeats the
+						// previous expression list, so removing a spec or a name
+						// would change the constants that follow. Blank the
+						// overridden names instead; constants have no side effects.
+						for _, name := range s.Names {
+							if _, ok := overrides[name.Name]; ok {
+								name.Name = `_`
+							}
+						}
+						continue
+					}
 					if len(s.Names) == len(s.Values) {
 						// multi-value context
 						// e.g. var a, b = 2, foo[int]()
